@@ -3177,7 +3177,8 @@ func ruleR180(c *Ctx) {
 		if f.Body == nil || f.Pkg.PkgPath != pathBpmn || f.Obj == nil || f.Obj.Name() != "run" {
 			continue
 		}
-		in := info(f)
+		_ = info(f)
+		seenRelay := map[*FuncInfo]bool{}
 		// receives on reply channels in the whole declared function, with the literal nesting they occur in
 		var visit func(h *FuncInfo, launched bool)
 		visit = func(h *FuncInfo, launched bool) {
@@ -3189,7 +3190,7 @@ func ruleR180(c *Ctx) {
 						ch = x.X
 					}
 				}
-				if ch == nil || !isReplyChan(in.TypeOf(ch)) {
+				if ch == nil || !isReplyChan(info(h).TypeOf(ch)) {
 					return true
 				}
 				n++
@@ -3205,6 +3206,17 @@ func ruleR180(c *Ctx) {
 				}
 				visit(l, launched || isGo)
 			}
+			// a relay that was given a name: `go node.relay(...)`
+			hin := info(h)
+			inspectNoLit(h.Body, func(m ast.Node) bool {
+				if gs, ok := m.(*ast.GoStmt); ok {
+					if cf := p.byObj[callee(hin, gs.Call)]; cf != nil && cf.Pkg == f.Pkg && cf.Body != nil && !seenRelay[cf] {
+						seenRelay[cf] = true
+						visit(cf, true)
+					}
+				}
+				return true
+			})
 		}
 		visit(f, false)
 	}
@@ -3254,5 +3266,415 @@ func ruleR181(c *Ctx) {
 			}
 			return true
 		})
+	}
+}
+
+// ---- R182, R183, R184 (round 8) ----
+
+func init() {
+	register(&Rule{ID: "R182", Title: "a list indexed by chain numbers is reordered the way the satisfier reorders its chains: where an element is removed at the index Satisfy returned, the last element is moved into the hole (never an order-preserving delete)", Min: 1, Run: ruleR182})
+	register(&Rule{ID: "R183", Title: "a forwarding goroutine stays: the goroutine that hands timer firings to the event ingress leaves its loop only on a done-source or when its channel is closed, not because a consumer reported an error", Min: 1, Run: ruleR183})
+	register(&Rule{ID: "R184", Title: "search with the order you sorted by: a binary search over a slice looks at the same key its Less compares", Min: 0, Run: ruleR184})
+}
+
+func ruleR182(c *Ctx) {
+	p := c.P
+	what := "Satisfy documents how chains are renumbered when one completes: the last chain is moved to the freed index. A buffer that is kept per chain has to be renumbered the same way; an order-preserving delete shifts every later buffer down by one, and from then on events are buffered under, and replayed from, the wrong partial set"
+	n := 0
+	for _, f := range p.Funcs {
+		if f.Body == nil || !isTargetPkg(p, f.Pkg.PkgPath) {
+			continue
+		}
+		in := info(f)
+		// indices returned by Satisfy
+		chainVars := map[types.Object]bool{}
+		inspectNoLit(f.Body, func(m ast.Node) bool {
+			as, ok := m.(*ast.AssignStmt)
+			if !ok || len(as.Rhs) != 1 || len(as.Lhs) != 2 {
+				return true
+			}
+			cl, ok := unparen(as.Rhs[0]).(*ast.CallExpr)
+			if !ok {
+				return true
+			}
+			if fn := callee(in, cl); fn != nil && fn.Name() == "Satisfy" && fn.Pkg() != nil && fn.Pkg().Path() == pathLogic {
+				if id, ok := as.Lhs[1].(*ast.Ident); ok {
+					chainVars[objOf(in, id)] = true
+				}
+			}
+			return true
+		})
+		if len(chainVars) == 0 {
+			continue
+		}
+		isChain := func(e ast.Expr) bool {
+			id, ok := unparen(e).(*ast.Ident)
+			return ok && chainVars[objOf(in, id)]
+		}
+		inspectNoLit(f.Body, func(m ast.Node) bool {
+			as, ok := m.(*ast.AssignStmt)
+			if !ok || len(as.Lhs) != 1 || len(as.Rhs) != 1 {
+				return true
+			}
+			fv := fieldOf(in, as.Lhs[0])
+			// s.list[chain] = s.list[len-1]  (swap form, first statement)
+			if ix, isIx := unparen(as.Lhs[0]).(*ast.IndexExpr); isIx && isChain(ix.Index) {
+				if rx, isRx := unparen(as.Rhs[0]).(*ast.IndexExpr); isRx && sameRef(in, rx.X, ix.X) {
+					n++
+					c.Ok(f, as, "removal at the index Satisfy returned from "+exprString(ix.X), what, "the last element is moved into the hole", true)
+				}
+				return true
+			}
+			if fv == nil {
+				return true
+			}
+			// s.list = append(s.list[:chain], s.list[chain+1:]...)
+			cl, isCall := unparen(as.Rhs[0]).(*ast.CallExpr)
+			if !isCall || !isBuiltin(in, cl, "append") || len(cl.Args) != 2 || !cl.Ellipsis.IsValid() {
+				return true
+			}
+			s1, ok1 := unparen(cl.Args[0]).(*ast.SliceExpr)
+			if !ok1 || s1.High == nil || !isChain(s1.High) {
+				return true
+			}
+			n++
+			c.Bad(f, as, "removal at the index Satisfy returned from "+exprString(as.Lhs[0]), what, "order-preserving delete "+exprString(as.Rhs[0]))
+			return true
+		})
+	}
+	if n == 0 {
+		c.Missing("per-chain buffers", "no list that is reduced at the index Satisfy returned was found")
+	}
+}
+
+func ruleR183(c *Ctx) {
+	p := c.P
+	what := "one goroutine per timer definition forwards every firing to the event ingress. On a shared bus the forward reports an error as soon as any one subscriber does, although the process took the event: a forwarder that gives up on that error strands the timer goroutine in its next send, and no later firing of the cycle reaches anybody"
+	n := 0
+	for _, f := range p.Funcs {
+		if f.Body == nil || f.Pkg.PkgPath != pathTimer || f.Lit == nil {
+			continue
+		}
+		// goroutine literals that call ConsumeEvent in a loop
+		if cl, ok := p.Parent(f.Lit).(*ast.CallExpr); !ok {
+			continue
+		} else if _, isGo := p.Parent(cl).(*ast.GoStmt); !isGo {
+			continue
+		}
+		in := info(f)
+		inspectNoLit(f.Body, func(m ast.Node) bool {
+			var body *ast.BlockStmt
+			switch x := m.(type) {
+			case *ast.ForStmt:
+				body = x.Body
+			case *ast.RangeStmt:
+				body = x.Body
+			}
+			if body == nil {
+				return true
+			}
+			forwards := false
+			inspectNoLit(body, func(z ast.Node) bool {
+				if cl, ok := z.(*ast.CallExpr); ok {
+					if fn := callee(in, cl); fn != nil && fn.Name() == "ConsumeEvent" {
+						forwards = true
+					}
+				}
+				return true
+			})
+			if !forwards {
+				return true
+			}
+			n++
+			// every return / break out of the loop sits in a done-source clause or in the `!ok` branch of the receive
+			var bad ast.Node
+			inspectNoLit(body, func(z ast.Node) bool {
+				switch x := z.(type) {
+				case *ast.ReturnStmt, *ast.BranchStmt:
+					if bs, isBr := x.(*ast.BranchStmt); isBr && (bs.Tok != token.BREAK || bs.Label == nil) && bs.Tok != token.GOTO {
+						if bs.Tok != token.BREAK {
+							return true
+						}
+						// an unlabelled break leaves a select or switch, not the loop
+						return true
+					}
+					ok := false
+					for cur := p.Parent(z); cur != nil && cur != ast.Node(body); cur = p.Parent(cur) {
+						if cc, isCC := cur.(*ast.CommClause); isCC {
+							if cc.Comm != nil {
+								var rx ast.Expr
+								switch cm := cc.Comm.(type) {
+								case *ast.ExprStmt:
+									if u, isU := cm.X.(*ast.UnaryExpr); isU && u.Op == token.ARROW {
+										rx = u.X
+									}
+								}
+								if rx != nil && isCtxDoneCall(in, rx) {
+									ok = true
+								}
+							}
+						}
+						if ifs, isIf := cur.(*ast.IfStmt); isIf {
+							// `if !ok { return }` after `v, ok := <-ch`
+							if u, isU := unparen(ifs.Cond).(*ast.UnaryExpr); isU && u.Op == token.NOT {
+								if id, isId := unparen(u.X).(*ast.Ident); isId {
+									if o := objOf(in, id); o != nil && o.Type() == types.Typ[types.Bool] {
+										ok = true
+									}
+								}
+							}
+						}
+					}
+					if !ok && bad == nil {
+						bad = z
+					}
+				}
+				return true
+			})
+			c.Check(bad == nil, f, m, "loop of the goroutine that forwards timer firings", what, ifElse(bad == nil, "left only on a done-source or a closed channel", "left at "+c.pos(bad)+" for another reason"))
+			return true
+		})
+	}
+	if n == 0 {
+		c.Missing("timer forwarders", "no goroutine in pkg/timer that forwards to ConsumeEvent in a loop was found")
+	}
+}
+
+func ruleR184(c *Ctx) {
+	p := c.P
+	what := "sort.Search is only meaningful on a slice that is ordered by the predicate's key. The mock clock sorts its wake-ups by UnixNano (which wraps for instants after 2262) — a search by After/Before over that order puts a far-future wake-up among the due ones, and it fires centuries early"
+	for _, f := range p.Funcs {
+		if f.Body == nil || !isTargetPkg(p, f.Pkg.PkgPath) {
+			continue
+		}
+		in := info(f)
+		inspectNoLit(f.Body, func(m ast.Node) bool {
+			cl, ok := m.(*ast.CallExpr)
+			if !ok || len(cl.Args) != 2 {
+				return true
+			}
+			fn := callee(in, cl)
+			if fn == nil || fn.Pkg() == nil || fn.Pkg().Path() != "sort" || fn.Name() != "Search" {
+				return true
+			}
+			lit, ok := unparen(cl.Args[1]).(*ast.FuncLit)
+			if !ok {
+				return true
+			}
+			// the slice the predicate indexes, and the methods it calls on the element
+			var sliceT *types.Named
+			predKeys := map[string]bool{}
+			ast.Inspect(lit.Body, func(z ast.Node) bool {
+				if c2, ok := z.(*ast.CallExpr); ok {
+					if se, ok := unparen(c2.Fun).(*ast.SelectorExpr); ok {
+						if ix, ok := unparen(se.X).(*ast.IndexExpr); ok {
+							if nt := namedOf(in.TypeOf(ix.X)); nt != nil {
+								sliceT = nt
+							}
+							predKeys[se.Sel.Name] = true
+						}
+					}
+				}
+				return true
+			})
+			if sliceT == nil {
+				return true
+			}
+			var less *FuncInfo
+			for _, h := range p.Funcs {
+				if h.Obj != nil && h.Obj.Name() == "Less" && recvNamed(h.Obj) == sliceT && h.Body != nil {
+					less = h
+				}
+			}
+			if less == nil {
+				return true
+			}
+			lessKeys := map[string]bool{}
+			lin := info(less)
+			ast.Inspect(less.Body, func(z ast.Node) bool {
+				if c2, ok := z.(*ast.CallExpr); ok {
+					if se, ok := unparen(c2.Fun).(*ast.SelectorExpr); ok {
+						if mentionsDeep(se.X, func(y ast.Node) bool { _, isIx := y.(*ast.IndexExpr); return isIx }) {
+							lessKeys[se.Sel.Name] = true
+						}
+					}
+				}
+				_ = lin
+				return true
+			})
+			same := len(lessKeys) > 0
+			for k := range predKeys {
+				if !lessKeys[k] {
+					same = false
+				}
+			}
+			c.Check(same, f, cl, "binary search over "+sliceT.Obj().Name(), what, fmt.Sprintf("predicate looks at %v, %s.Less compares %v", sortedKeys(predKeys), sliceT.Obj().Name(), sortedKeys(lessKeys)))
+			return true
+		})
+	}
+}
+
+// ---- R185, R186 (round 8) ----
+
+func init() {
+	register(&Rule{ID: "R185", Title: "namespace declarations do not depend on the content: every xmlns attribute the writer adds to the root element is added whenever the root element is written — controlled by the element's type only", Min: 5, Run: ruleR185})
+	register(&Rule{ID: "R186", Title: "an event without an operation does not match a definition that names one: the message matcher returns false on a path controlled by both facts", Min: 1, Run: ruleR186})
+}
+
+func ruleR185(c *Ctx) {
+	p := c.P
+	what := "a prefix that is used anywhere below the root has to be declared on it. Declaring the vendor namespace only 'when the model uses the extensions' needs a complete list of the places the prefix can occur — the first one that is forgotten (a data object body, an item) makes the exported document unparsable"
+	n := 0
+	for _, f := range p.Funcs {
+		if f.Body == nil || f.Pkg.PkgPath != pathSchema {
+			continue
+		}
+		in := info(f)
+		inspectNoLit(f.Body, func(m ast.Node) bool {
+			lit, ok := m.(*ast.CompositeLit)
+			if !ok || !isNamed(in.TypeOf(lit), "encoding/xml", "Attr") {
+				return true
+			}
+			// Name: xml.Name{Local: "xmlns:..."}
+			isNS := false
+			ast.Inspect(lit, func(z ast.Node) bool {
+				if kv, ok := z.(*ast.KeyValueExpr); ok {
+					if id, ok := kv.Key.(*ast.Ident); ok && id.Name == "Local" {
+						if s, ok := constString(in, kv.Value); ok && strings.HasPrefix(s, "xmlns") {
+							isNS = true
+						}
+					}
+				}
+				return true
+			})
+			if !isNS {
+				return true
+			}
+			n++
+			var extra []string
+			for _, pc := range polarConds(p, lit) {
+				e := unparen(pc.cond)
+				if id, isId := e.(*ast.Ident); isId {
+					if o := objOf(in, id); o != nil && o.Type() == types.Typ[types.Bool] {
+						// the ok of a type assertion
+						continue
+					}
+				}
+				extra = append(extra, exprString(pc.cond))
+			}
+			c.Check(len(extra) == 0, f, lit, "declaration "+exprString(lit), what, ifElse(len(extra) == 0, "added whenever the root element is written", fmt.Sprintf("added only if %v", extra)))
+			return true
+		})
+	}
+	if n == 0 {
+		c.Missing("namespace declarations", "no xmlns attribute literal was found in the schema package")
+	}
+}
+
+func ruleR186(c *Ctx) {
+	p := c.P
+	what := "a message event that names no operation is a different message from one bound to an operation; matching it against an operation-bound definition lets a multiple catch event fire on the wrong message and credits a parallel-multiple one with a definition it never saw"
+	n := 0
+	for _, f := range p.Funcs {
+		if f.Body == nil || f.Obj == nil || f.Pkg.PkgPath != pathEvent || f.Obj.Name() != "MatchesEventInstance" {
+			continue
+		}
+		rn := recvNamed(f.Obj)
+		if rn == nil {
+			continue
+		}
+		st, ok := rn.Underlying().(*types.Struct)
+		if !ok {
+			continue
+		}
+		var opField *types.Var
+		for i := 0; i < st.NumFields(); i++ {
+			if _, isPtr := st.Field(i).Type().(*types.Pointer); isPtr && strings.Contains(strings.ToLower(st.Field(i).Name()), "operation") {
+				opField = st.Field(i)
+			}
+		}
+		if opField == nil {
+			continue
+		}
+		in := info(f)
+		n++
+		// the bool locals that come from OperationRef()
+		present := map[types.Object]bool{}
+		inspectNoLit(f.Body, func(m ast.Node) bool {
+			as, ok := m.(*ast.AssignStmt)
+			if !ok || len(as.Rhs) != 1 || len(as.Lhs) != 2 {
+				return true
+			}
+			if cl, ok := unparen(as.Rhs[0]).(*ast.CallExpr); ok {
+				if fn := callee(in, cl); fn != nil && fn.Name() == "OperationRef" {
+					if id, ok := as.Lhs[1].(*ast.Ident); ok {
+						present[objOf(in, id)] = true
+					}
+				}
+			}
+			return true
+		})
+		found := false
+		inspectNoLit(f.Body, func(m ast.Node) bool {
+			rs, ok := m.(*ast.ReturnStmt)
+			if !ok || len(rs.Results) != 1 {
+				return true
+			}
+			tv, has := in.Types[rs.Results[0]]
+			if !has || tv.Value == nil || tv.Value.String() != "false" {
+				return true
+			}
+			noOp, hasDef := false, false
+			var visit func(e ast.Expr, pos bool)
+			visit = func(e ast.Expr, pos bool) {
+				e = unparen(e)
+				switch x := e.(type) {
+				case *ast.UnaryExpr:
+					if x.Op == token.NOT {
+						visit(x.X, !pos)
+					}
+				case *ast.BinaryExpr:
+					if x.Op == token.LAND && pos {
+						visit(x.X, pos)
+						visit(x.Y, pos)
+						return
+					}
+					if x.Op == token.LOR && !pos {
+						visit(x.X, pos)
+						visit(x.Y, pos)
+						return
+					}
+					if x.Op == token.EQL || x.Op == token.NEQ {
+						isNil := func(y ast.Expr) bool { t, ok := in.Types[y]; return ok && t.IsNil() }
+						var other ast.Expr
+						if isNil(x.Y) {
+							other = x.X
+						} else if isNil(x.X) {
+							other = x.Y
+						}
+						if other != nil && fieldOf(in, other) == opField {
+							if (x.Op == token.EQL) == pos {
+								noOp = true
+							}
+						}
+					}
+				case *ast.Ident:
+					if present[objOf(in, x)] && pos {
+						hasDef = true
+					}
+				}
+			}
+			for _, pc := range polarConds(p, rs) {
+				visit(pc.cond, pc.positive)
+			}
+			if noOp && hasDef {
+				found = true
+			}
+			return true
+		})
+		c.Check(found, f, f.Decl, rn.Obj().Name()+": no operation on the event, operation on the definition", what, ifElse(found, "a `return false` is controlled by "+opField.Name()+" == nil and by the definition's OperationRef being present", "no `return false` is controlled by both "+opField.Name()+" == nil and the presence of the definition's OperationRef"))
+	}
+	if n == 0 {
+		c.Missing("message matcher", "no MatchesEventInstance on a type with an optional operation reference was found")
 	}
 }
